@@ -3,7 +3,7 @@ EXTENDS Nested, Json
 CONSTANT MaxLevel
 Bound == TLCGet("level") <= MaxLevel
 View  == vars
-Vars  == [chain |-> chain]
+Vars  == [chain |-> chain, rooted |-> rooted, coreAt |-> CoreAt]    \* coreAt: where the harness must put the core
 Emit  == PrintT(ToJson([lvl |-> TLCGet("level"), from |-> Vars, act |-> act', to |-> Vars', err |-> err']))
 EmitState == PrintT(ToJson([st |-> Vars, obs |-> Obs]))
 =====================================================================================================
